@@ -130,9 +130,17 @@ func (d *destination) unlock(now, end common.Timestamp, dry bool) (
 		ratio = float64(period) / float64(full)
 	}
 
-	amount, err = currency.MultFloat64(left, ratio)
-	if err != nil {
-		return 0, err
+	if ending {
+		// everything that is left; float64 is not exact above 2^53
+		amount = left
+	} else {
+		amount, err = currency.MultFloat64(left, ratio)
+		if err != nil {
+			return 0, err
+		}
+		if amount > left {
+			amount = left
+		}
 	}
 
 	if !dry {
